@@ -469,4 +469,11 @@ def run(ctx):
     # the stream is attempted in every dump: its writer is on every success path of generate_dump (same rule instance as C01/every-stream-attempted)
     from rules import c01 as _c01
     _c01.rule_stream_attempted(ctx, R="C08/stream-attempted", only=("mappings::write",))
+    # the mapping list is built from the whole memory map (same rule instance as C13/whole-map-read)
+    from rules import c13 as _c13w
+    _c13w.rule_whole_map_read(ctx, R="C08/whole-map-read")
+    # the entry point that puts the main module first is looked up whenever the caller did not supply it: key->field map, caller
+    # values win, the whole vector is scanned (same rule instance as C18/auxv)
+    from rules import c18 as _c18a
+    _c18a.rule_auxv(ctx, R="C08/auxv")
 
